@@ -2335,7 +2335,11 @@ def fast_nonMarkov_SIR(G, trans_time_fxn=None,
         initial_infecteds=[initial_infecteds]
     #else it is assumed to be a list of nodes.
         
-    times, S, I, R= ([tmin], [G.order()], [0], [0])  
+    if initial_recovereds is None:
+        nR0 = 0
+    else:
+        nR0 = len(initial_recovereds)
+    times, S, I, R= ([tmin], [G.order()-nR0], [0], [nR0])  
     transmissions = []
     
     for u in initial_infecteds:
